@@ -16,6 +16,7 @@ func init() {
 }
 
 func runC11(r *engine.Run) {
+	r.Rule("RACE-captured", "a function literal started as a goroutine inside a loop (errgroup.Go, go statement) in core/util/wmpt stores into no variable captured from the enclosing function: the parallel commit of the root's subtrees keeps each subtree's result in the goroutine that produced it")
 	r.Rule("DOM-save", "in commit each arm of a kind that can be saved (branch, shared-prefix, value) calls Save(batcher) on the node before every success return of that arm, and descends into its dirty children first (branch: loop over all 16 slots; shared-prefix: its value); Commit saves the root likewise")
 	r.Rule("DOM-created", "in commit every node put into the batch is also reported on the created channel (and its previous hash, when different, on the deleted channel) on every success path of its arm, including the collapse-level paths: the created report is what cancels a pending delete of the same hash and what a rollback removes")
 	r.Rule("WHO-scheduled", "insert schedules a hash for collection only for the shared-prefix node it splits (the scheduled hash is Hash() of a value of static type *shortNode): a position it overwrites may receive content that hashes as before, and whether the old hash dies is commit's decision under its hash-changed test")
@@ -69,6 +70,7 @@ func runC11(r *engine.Run) {
 	errGuard(r, "ERR-guard", "ERR-dropped", funcsOfPkg(r, pkgWMPT), 10)
 	freshResolved(r, "FRESH-resolved")
 	depLinkBack(r, "DEP-linkback")
+	raceCaptured(r, "RACE-captured", pkgWMPT, 1)
 }
 
 func domSave(r *engine.Run) {
@@ -171,6 +173,35 @@ func domSave(r *engine.Run) {
 		}
 		r.Check(save != nil && viaCommit != nil && childCommit, rule, fn(c)+"|root", r.P.Pos(c.Pos()), "branch root: children committed in parallel then root.Save; other roots: commit(root)",
 			fmt.Sprintf("Commit does not save the root on every kind (root.Save=%v, commit(root)=%v, children committed=%v)", save != nil, viaCommit != nil, childCommit))
+		// every success return saved the root, or found it clean
+		if save != nil && viaCommit != nil {
+			bad := ""
+			for _, ret := range engine.Returns(c) {
+				if ret.Block().Comment == "recover" || len(ret.Results) != 2 || !nilConst(resultValue(ret, 1)) {
+					continue
+				}
+				if engine.InstrDominates(save, ret) || engine.InstrDominates(viaCommit, ret) {
+					continue
+				}
+				clean := false
+				if facts, ok := engine.FactsOn(c, ret.Block()); ok {
+					for _, ft := range facts {
+						if ft.Kind == "bool" && !ft.Truth {
+							if dc, ok := ft.A.(*ssa.Call); ok && dc.Call.IsInvoke() && dc.Call.Method.Name() == "Dirty" {
+								if fl := fieldLoadOf(dc.Call.Value); fl != nil && fl.Name() == "root" {
+									clean = true
+								}
+							}
+						}
+					}
+				}
+				if !clean {
+					bad = r.P.Pos(ret.Pos())
+				}
+			}
+			r.Check(bad == "", rule, fn(c)+"|root saved on every success", r.P.Pos(c.Pos()), "every success return of Commit saved the root or found it clean",
+				"Commit reports success ("+bad+") for a dirty root without having saved it (a shortcut for 'no subtree was written'): a root that changed without a dirty child - a child was removed, a weight changed - is not in the batch, and the trie cannot be reopened from the root hash the commit reports")
+		}
 	}
 }
 
